@@ -89,7 +89,19 @@ def sequence(job):
         sizes = [len(c.member_points) for c in h.clusters]
         try:
             if op == "set_labels":
-                L = [rng.randrange(K) for _ in range(NP)] if rng.random() < 0.8 else list(h.point_labels)
+                u = rng.random()
+                if u < 0.6:
+                    L = [rng.randrange(K) for _ in range(NP)]
+                elif u < 0.8:
+                    L = list(h.point_labels)                      # the same labelling again
+                else:
+                    # a labelling that keeps every cluster's SIZE (and usually its end points) but changes
+                    # interiors: swap the labels of two interior points
+                    L = [int(x) for x in h.point_labels]
+                    cand = [(i, j) for i in range(1, NP - 1) for j in range(i + 1, NP - 1) if L[i] != L[j]]
+                    if cand:
+                        i, j = rng.choice(cand)
+                        L[i], L[j] = L[j], L[i]
                 h.point_labels = list(L)
                 clean = False if len(handles) > 1 else clean
                 log({"op": op, "h": hi + 1, "L": L})
